@@ -47,7 +47,8 @@ static int time_over(void) {
 /* ------------------------------------------------------------------ per case statistics */
 static long st_calls, st_ok[EP_N], st_err[EP_N], st_follow, st_inputs;
 static long st_ver[3];               /* verification follow-ups: OK / NA+FAIL / error status */
-static long st_pduverify_ok, st_log_calls;
+static long st_pduverify_ok, st_log_calls, st_skipped_after_leak;
+static long g_case_leaked[EP_N];      /* blocks leaked by the context-free entry points in this case */
 static uint64_t st_hash;
 static int g_quiet;                  /* attribution pass: no statistics, no reports from the follow-ups */
 static volatile size_t g_sink;
@@ -58,7 +59,8 @@ static int st_nsigs;
 static void stats_reset(void) {
 	memset(st_ok, 0, sizeof st_ok); memset(st_err, 0, sizeof st_err); memset(st_ver, 0, sizeof st_ver);
 	st_calls = st_follow = st_inputs = st_pduverify_ok = st_log_calls = 0;
-	st_nsigs = 0;
+	st_nsigs = 0; st_skipped_after_leak = 0;
+	memset(g_case_leaked, 0, sizeof g_case_leaked);
 	st_hash = 1469598103934665603ULL;
 }
 static void stats_flush(void) {
@@ -77,6 +79,7 @@ static void stats_flush(void) {
 	vf_count("impl_calls", st_calls);
 	vf_count("inputs", st_inputs);
 	vf_count("followup_objects", st_follow);
+	if (st_skipped_after_leak) { vf_count("inputs_not_fed_after_leak_cap", st_skipped_after_leak); vf_outcome("leak-cap-reached"); }
 }
 
 static void fail(const char *sig, const char *fmt, ...) __attribute__((format(printf, 2, 3)));
@@ -699,6 +702,7 @@ static void err_render(void) {
 }
 
 static long g_exact_leaked;
+#define LEAK_CAP 500                  /* after that many leaked blocks the entry point is not fed any more in this case (the process would grow without bound) */
 static const char *ep_leak_sig(int ep) {
 	static char b[EP_N][40];
 	snprintf(b[ep], sizeof b[ep], "leak:%s", EPNAME[ep]);
@@ -708,7 +712,9 @@ static const char *ep_leak_sig(int ep) {
 /* returns 1 when the entry point accepted the input */
 static int run_input(int ep, const unsigned char *d, size_t n, int render_err) {
 	int ok = 0, res;
-	xblock x = xb_make(d, n);
+	xblock x;
+	if (g_case_leaked[ep] > LEAK_CAP) { if (!g_quiet) st_skipped_after_leak++; return 0; }
+	x = xb_make(d, n);
 	long live_before = vf_alloc_live;
 	int exact_leak_check = 0;
 	switch (ep) {
@@ -861,6 +867,7 @@ static int run_input(int ep, const unsigned char *d, size_t n, int render_err) {
 		/* entry points that do not keep anything in the context: exact accounting per call */
 		fail(ep_leak_sig(ep), "%ld SDK block(s) still allocated after the call and after freeing what it returned; entry point %s, input (%zu bytes)=%s", vf_alloc_live - live_before, EPNAME[ep], n, vf_hex(d, n));
 		g_exact_leaked += vf_alloc_live - live_before;
+		g_case_leaked[ep] += vf_alloc_live - live_before;
 	}
 	xb_free(&x);
 	if (!g_quiet) { if (ok) st_ok[ep]++; else st_err[ep]++; }
